@@ -377,5 +377,5 @@ def replay(ctx, case):
 
 def run(ctx):
     q = ctx.tier == "quick"
-    hyp_run(ctx, "text", text_case(), lambda c: check_text(ctx, c), 2500 if q else 60000)
-    hyp_run(ctx, "file", file_case(), lambda c: check_file(ctx, c), 120 if q else 2500)
+    hyp_run(ctx, "text", text_case(), lambda c: check_text(ctx, c), 2500 if q else 40000)
+    hyp_run(ctx, "file", file_case(), lambda c: check_file(ctx, c), 120 if q else 1800)
